@@ -5,7 +5,7 @@
      (filter change of one of two overlapping subscriptions) and F38 (initial values overtaken by a pending removal). *)
 From Coq Require Import List NArith ZArith Bool Arith Lia.
 From Muscle Require Import Gen.Consts Refl.Base Refl.BaseProofs Refl.Tree Refl.Matcher Refl.Traverse Refl.Session Refl.Server
-     Refl.ServerProofs Refl.RefcountProofs Refl.Mirror Refl.MirrorProofs Refl.MirrorCheck Refl.Concrete Refl.Examples.
+     Refl.ServerProofs Refl.RefcountProofs Refl.Mirror Refl.MirrorSubscribe Refl.MirrorCmd Refl.MirrorFrame Refl.MirrorProofs Refl.MirrorCheck Refl.Concrete Refl.Examples.
 Import ListNotations.
 Local Open Scope N_scope.
 
@@ -91,3 +91,48 @@ Lemma mirror_refuted_without_F38_repair :
   /\ holds_at (world_run (mkFixes true true false) ex_f38 empty_world) 0 [1; 11; 21] = false          (* ab is missing *)
   /\ holds_at (world_run all_fixed ex_f38 empty_world) 0 [1; 11; 21] = true.
 Proof. vm_compute. repeat split; reflexivity. Qed.
+
+(* ------------------------------------------------------------------ explicit GETDATA of the observer, quiet subscription of another session *)
+
+(* session 1 subscribes quietly; the observer 0 asks again for what it is subscribed to, alone and inside a BATCH after
+   the SUBSCRIBE: that covers the key *)
+Definition exg : list event :=
+  [ EAttach 0 1 10; EAttach 1 1 11;
+    ECmd 1 (CSetData 0 [([21], 6); ([22], 2)]);
+    ECmd 0 (CSubscribe false [(Rel [a_star], None)]);
+    ECmd 1 (CSubscribe true [(Rel [CLit 21], None)]);
+    ECmd 0 (CGetData [(Rel [a_star], None)]);
+    ECmd 0 (CBatch [CSubscribe false [(Rel [CLit 21], Some 4)]; CGetData [(Rel [CLit 21], Some 4)]; CSetData 0 [([23], 1)]]);
+    ECmd 1 (CSetData 0 [([21], 9)]) ].
+
+Lemma exg_premises :
+  wf_wrun all_fixed empty_world exg /\ Forall (ev_ok 0) exg /\ clean_wrun all_fixed 0 empty_world exg /\ small (run_budget exg).
+Proof.
+  split; [apply wf_wrun_b_spec; vm_compute; reflexivity|].
+  split; [apply ev_ok_b_spec; vm_compute; reflexivity|].
+  split; [|unfold small; vm_compute; reflexivity].
+  assert (Hb : forall w ev, ev_clean_b 0 ev = true -> ev_clean 0 w ev) by (intros; now apply ev_clean_b_one).
+  cbn [clean_wrun exg].
+  split; [apply Hb; reflexivity|]. split; [apply Hb; reflexivity|]. split; [apply Hb; reflexivity|].
+  split; [apply Hb; reflexivity|]. split; [apply Hb; reflexivity|].
+  split; [|split; [|split; [apply Hb; reflexivity|exact I]]].
+  - (* GETDATA a* *)
+    cbn [ev_clean]. intros _. split; [exact I|left]. split; [reflexivity|]. intros ss Hss. vm_compute in Hss. inversion Hss; subst ss. clear Hss.
+    cbn [cmd_covered]. split; [repeat constructor; intros []|]. split.
+    + intros p Hp. vm_compute in Hp. destruct Hp as [Hp|[]]. subst p. discriminate.
+    + intros kf Hk. destruct Hk as [Hk|[]]. subst kf. vm_compute. auto.
+  - (* BATCH [SUBSCRIBE ab@4; GETDATA ab@4; SETDATA] *)
+    cbn [ev_clean]. intros _. split.
+    + cbn. split; [|repeat split]. split; [repeat constructor; intros []|]. intros p Hp. destruct Hp as [Hp|[]]. subst p. discriminate.
+    + left. split; [reflexivity|]. intros ss Hss. vm_compute in Hss. inversion Hss; subst ss. clear Hss.
+      cbn [cmd_covered]. split; [exact I|]. split; [|split; exact I].
+      split; [repeat constructor; intros []|]. split.
+      * intros p Hp. vm_compute in Hp. destruct Hp as [Hp|[]]. subst p. discriminate.
+      * intros kf Hk. destruct Hk as [Hk|[]]. subst kf. vm_compute. auto.
+Qed.
+
+(* the observer holds ab and ac of session 1 with their current payloads at the end *)
+Example exg_nontrivial :
+  holds_at (world_run all_fixed exg empty_world) 0 [1; 11; 21] = true
+  /\ option_map (fun c => length (c_mirror c)) (find (fun c => N.eqb (c_id c) 0) (w_clients (world_run all_fixed exg empty_world))) = Some 2%nat.
+Proof. vm_compute. split; reflexivity. Qed.
